@@ -137,7 +137,7 @@ def oracle_fs(sc, res, which):
                     if not o["jobs"][i][2]:
                         out.append(("C09:idle-token-file-left", "token file %s left at quiescence" % n, k))
                     for p, pr in enumerate(o["procs"]):
-                        if pr is not None and any(x == n for x, _ in pr["cache"]):
+                        if pr is not None and pr["obs"] and any(x == n for x, _ in pr["cache"]):
                             out.append(("C09:orphan-file-known-not-reclaimed",
                                         "process %d knows the leftover file %s but has no watcher for it" % (p, n), k))
                 for p, pr in enumerate(o["procs"]):
@@ -156,10 +156,9 @@ def oracle_fs(sc, res, which):
                                 out.append(("C09:waiting-job-fits-at-quiescence:observer-alive",
                                             "job %d (request %d <= total %d) is WAITING at quiescence, nothing pending, "
                                             "observer alive" % (i, sc["jobs"][i]["c"], total), k))
-                            else:
-                                out.append(("C09:waiting-job-fits-at-quiescence:observer-dead",
-                                            "job %d (request %d <= total %d) is WAITING at quiescence after the "
-                                            "observer thread died" % (i, sc["jobs"][i]["c"], total), k))
+                            # with a dead observer this is the consequence of the handler exception
+                            # already reported at the step where it escaped
+    del dead_obs
     seen = set()
     uniq = []
     for key, what, k in out:
